@@ -59,6 +59,46 @@ func TestC18Copy(t *testing.T) {
 		useNew := rapid.IntRange(0, 5).Draw(t, "useNew") == 0
 		history := []string{}
 
+		// A soft resource whose type came from BuildType (NewFunc is set) and
+		// was changed afterwards: New and Copy must still give a resource of
+		// the resource's own (changed) type.
+		if !wrappedSrc && rapid.IntRange(0, 3).Draw(t, "builtType") == 0 {
+			wt := ts
+			wt.Struct = true
+			bt := gen.BuildSchema([]gen.TypeSpec{wt}).Schema.Types[0].Copy()
+			sr := &jsonapi.SoftResource{Type: &bt}
+			sr.AddAttr(jsonapi.Attr{Name: "added", Type: jsonapi.AttrTypeInt})
+
+			for _, k := range gen.SortedKeys(vals) {
+				if ids, ok := vals[k].([]string); ok && len(ids) == 0 {
+					continue
+				}
+
+				sr.Set(k, gen.Clone(vals[k]))
+			}
+
+			sr.Set("added", 7)
+			vals["added"] = 7
+			ts.Attrs = append(ts.Attrs, jsonapi.Attr{Name: "added", Type: jsonapi.AttrTypeInt})
+			src = sr
+		}
+
+		// Slices obtained from the source before it is copied are still
+		// "slices obtained from it".
+		var (
+			preBytes []byte
+			preIDs   []string
+			prePtr   *[]byte
+		)
+
+		if p := oracle.Try(func() {
+			preBytes, _ = src.Get("by").([]byte)
+			preIDs, _ = src.Get("m").([]string)
+			prePtr, _ = src.Get("byn").(*[]byte)
+		}); p != nil {
+			t.Fatalf("C18 violated: Get %s", p)
+		}
+
 		var other jsonapi.Resource
 
 		before := oracle.SnapshotResource(src, false)
@@ -77,6 +117,25 @@ func TestC18Copy(t *testing.T) {
 
 		if after := oracle.SnapshotResource(src, false); after != before {
 			t.Fatalf("C18 violated: Copy/New changed the source\nbefore: %s\nafter:  %s\ncase: %s", before, after, desc)
+		}
+
+		// Writing through a slice taken from the source before the copy was
+		// made, before anything else touches either side.
+		earlyWrite := !useNew && rapid.IntRange(0, 2).Draw(t, "earlyPreWrite") == 0
+		if earlyWrite {
+			if len(preBytes) > 0 {
+				preBytes[0] ^= 0x33
+			}
+
+			if len(preIDs) > 0 {
+				preIDs[len(preIDs)-1] = "early-mutated"
+			}
+
+			if prePtr != nil && len(*prePtr) > 0 {
+				(*prePtr)[len(*prePtr)-1] ^= 0x33
+			}
+
+			history = append(history, "write through slices taken from the source before Copy")
 		}
 
 		if useNew {
@@ -101,6 +160,9 @@ func TestC18Copy(t *testing.T) {
 
 			snap := oracle.SnapshotResource(y, false)
 			ops := []string{"set-attr", "set-rel", "set-id", "marshal", "filter", "write-bytes", "write-ids", "write-ptr-bytes"}
+			if x == src {
+				ops = append(ops, "write-pre-bytes", "write-pre-ids", "write-pre-ptr-bytes")
+			}
 
 			if _, isSoft := x.(*jsonapi.SoftResource); isSoft {
 				ops = append(ops, "add-attr", "add-rel", "remove-field")
@@ -166,6 +228,21 @@ func TestC18Copy(t *testing.T) {
 							ids[len(ids)-1] = "mutated"
 							inPlace++
 						}
+					}
+				case "write-pre-bytes":
+					if len(preBytes) > 0 {
+						preBytes[len(preBytes)-1] ^= 0x55
+						inPlace++
+					}
+				case "write-pre-ids":
+					if len(preIDs) > 0 {
+						preIDs[0] = "pre-mutated"
+						inPlace++
+					}
+				case "write-pre-ptr-bytes":
+					if prePtr != nil && len(*prePtr) > 0 {
+						(*prePtr)[0] ^= 0x55
+						inPlace++
 					}
 				case "write-ptr-bytes":
 					if _, ok := x.Attrs()["byn"]; ok {
